@@ -307,7 +307,9 @@ func getTagType(v reflect.Value) (byte, reflect.Value) {
 			break
 		}
 		if v.IsNil() {
-			v.Set(reflect.New(v.Type().Elem()))
+			// encode a nil pointer as the zero value of its element type,
+			// without allocating into (or requiring settability of) the input
+			v = reflect.New(v.Type().Elem())
 		}
 		if v.Type().NumMethod() > 0 && v.CanInterface() {
 			i := v.Interface()
